@@ -234,6 +234,30 @@ def cooSort (q : List (Nat × Nat × Rat)) : List (Nat × Nat × Rat) :=
 def cooSortPy (q : List (Nat × Nat × Rat)) : List (Nat × Nat × Rat) :=
   (cooNormalise q).mergeSort fun a b => decide (a.2.1 < b.2.1) || (decide (a.2.1 = b.2.1) && decide (a.1 ≤ b.1))
 
+/-- the three parallel COO arrays of `to_numpy_vectors` -/
+structure QVec where
+  rows : List Nat
+  cols : List Nat
+  biases : List Rat
+
+def QVec.triples (q : QVec) : List (Nat × Nat × Rat) := q.rows.zip (q.cols.zip q.biases)
+
+/-- `np.lexsort((row, col))`: the stable permutation that sorts by column, then by row -/
+def lexsortPerm (rows cols : List Nat) : List Nat :=
+  argsortBy (fun (a b : Nat × Nat) => decide (a.2 < b.2) || (decide (a.2 = b.2) && decide (a.1 ≤ b.1))) (rows.zip cols)
+
+/-- the `sort_indices` block of the Python fallback as coded: swap where `row > col` (in both index arrays), then
+    apply ONE permutation `order` to the rows, to the columns **and to the biases** -/
+def sortIndicesPy (q : QVec) : QVec :=
+  let r := List.zipWith min q.rows q.cols
+  let c := List.zipWith max q.rows q.cols
+  let order := lexsortPerm r c
+  { rows := gather r order, cols := gather c order, biases := gather q.biases order }
+
+/-- the same on a list of triples (split into the three arrays, sort, zip again) -/
+def cooSortPyArrays (q : List (Nat × Nat × Rat)) : List (Nat × Nat × Rat) :=
+  (sortIndicesPy ⟨q.map (·.1), q.map (·.2.1), q.map (·.2.2)⟩).triples
+
 /-- `to_numpy_vectors(sort_indices=True, sort_labels=True, return_labels=True)` for the label order
     `order` (a permutation of the indices; the identity in the `is_range` fast path); `py` selects the
     Python fallback used by object-dtype models -/
@@ -241,7 +265,7 @@ def toVectors (b : BQMIdx) (order : List Nat) (py : Bool := false) : Vectors :=
   let reindex (vi : Nat) : Nat := order.idxOf vi
   let q := b.quad.map fun t => (reindex t.1, reindex t.2.1, t.2.2)
   { ldata := order.map fun vi => b.lin.getD vi 0,
-    quad := if py then cooSortPy q else cooSort q,
+    quad := if py then cooSortPyArrays q else cooSort q,
     offset := b.offset, order := order }
 
 /-- `from_numpy_vectors` in the index space of the document: biases are accumulated -/
@@ -466,5 +490,22 @@ structure FloatCodec where
 
 def tobytesFloat (c : FloatCodec) (data : List Rat) : List Nat := data.flatMap c.enc
 def frombufferFloat (c : FloatCodec) (bytes : List Nat) (count : Nat) : List Rat := (chunksN c.size count bytes).map c.dec
+
+end Pack
+
+namespace Pack
+open SSM
+
+/-! ### COO: the vartype header -/
+
+/-- `coo.load`: the vartype is the `vartype` argument and / or the `# vartype=…` header lines; they must agree, and
+    one of them must be there (`none` = `ValueError`) -/
+def cooLoadVartype : Option VT → List VT → Option VT
+  | arg, [] => arg
+  | none, h :: t => cooLoadVartype (some h) t
+  | some a, h :: t => if h = a then cooLoadVartype (some a) t else none
+
+/-- `coo.dumps(bqm, vartype_header)`: the header lines written -/
+def cooHeader (vartypeHeader : Bool) (vt : VT) : List VT := if vartypeHeader then [vt] else []
 
 end Pack
